@@ -62,6 +62,16 @@ namespace mon
          const char* poison_from = nullptr;
          std::size_t poison_len = 0;
          bool raised_from_failure_hook = false;
+         int kind = 0;              // action kind attached to this rule in the action family of the invocation
+         bool delegating = false;   // change_action / change_action_and_state: re-enters Control< Rule >::match with the new family
+         // up to two states live in one invocation: the one of an action-based switch (outer) and the one of a state<> rule (inner)
+         struct carried { int serial = -1; int outer_expected = 0; int successes = 0; const char* success_cursor = nullptr; int success_outer = -3; bool dtor = false; bool rule_based = false; };
+         carried cs[ 2 ];
+         int ncs = 0;
+         int expect_cs = 0;
+         bool action_state = false;   // kind is change_state / change_states / change_action_and_state
+         bool rule_state = false;     // rule_t is internal::state
+         bool kids_open() const { return false; }   // the innermost frame has no open nested invocation by construction
       };
 
       struct aev { int vid; int kind; int fam; std::size_t b, e; bool has_input; int state; };
@@ -82,6 +92,7 @@ namespace mon
          std::vector< aev > alog;      // transactional
          long raw_actions = 0;
          std::vector< scope > scopes;  // transactional list of state scopes
+         std::vector< int > live_states;   // serials of the state objects alive, innermost last (0 = the top-level state)
          std::vector< sev > slog;
          std::vector< pending > viols;
          long steps = 0;
@@ -167,7 +178,14 @@ namespace mon
          }
       }
 
-      int kind_of_vid( int vid ) { return ( R.g && R.g->akinds && vid >= 0 ) ? R.g->akinds[ vid ] : 0; }
+      int kind_of_vid( int vid, bool famb = false )
+      {
+         if( !R.g || vid < 0 || R.cfg->plain ) return 0;
+         const signed char* t = famb ? R.g->akinds_b : R.g->akinds;
+         return t ? t[ vid ] : 0;
+      }
+
+      bool is_state_rule( std::string_view rtname ) { return rtname.rfind( "tao::pegtl::internal::state<", 0 ) == 0; }
 
    }  // namespace
 
@@ -192,6 +210,17 @@ namespace mon
       f.bumps = R.bumps;
       f.furthest_saved = R.furthest;
       R.furthest = s.p;
+      f.kind = kind_of_vid( vid, ( flags & F_AFAM_B ) != 0 );
+      if( !R.frames.empty() && R.frames.back().delegating && R.frames.back().vid == vid ) {
+         // second entry of the same rule with the new action family: its own kind comes from family B (flag says so already)
+      }
+      if( f.kind == ref::A_ENABLE_ACTION ) f.flags |= ( F_ACT | F_ENABLE_RULE );
+      if( f.kind == ref::A_DISABLE_ACTION ) { f.flags &= ~unsigned( F_ACT ); f.flags |= F_DISABLE_RULE; }
+      if( f.kind == ref::A_CHANGE_CONTROL ) f.flags |= F_CFAM_B;
+      f.delegating = ( f.kind == ref::A_CHANGE_ACTION || f.kind == ref::A_CHANGE_ACTION_AND_STATE );
+      f.rule_state = is_state_rule( rtname ) && !f.delegating;   // a delegating invocation runs the rule itself in the nested invocation
+      f.action_state = ( f.kind == ref::A_CHANGE_STATE || f.kind == ref::A_CHANGE_STATES || f.kind == ref::A_CHANGE_ACTION_AND_STATE );
+      f.expect_cs = ( f.rule_state ? 1 : 0 ) + ( f.action_state ? 1 : 0 );
       // a narrower window (rematch sub-input, byte limit): poison what lies beyond it
       if( in_end && in_end < R.end && in_end >= R.base ) {
          const frame* parent = R.frames.empty() ? nullptr : &R.frames.back();
@@ -220,6 +249,9 @@ namespace mon
       // ---- C08: closing hook must match the outcome (not in tree mode: parse_tree's control keeps hooks of unselected rules to itself)
       if( R.cfg->tree ) {
       }
+      else if( f.delegating ) {
+         if( f.started || f.closed != -1 ) viol( "C08", "C08|hooks-on-delegating-invocation|" + t, "hooks were called on the outer invocation of " + std::string( f.name ) + " although its action re-enters the rule with another action family" );
+      }
       else if( enabled ) {
          if( !f.started ) viol( "C08", "C08|no-start|" + t, "invocation of " + std::string( f.name ) + " ended without a start hook" );
          const int expect = result == 1 ? 1 : result == 0 ? 2 : ( ( f.flags & F_HAS_UNWIND ) ? 3 : -1 );
@@ -231,6 +263,22 @@ namespace mon
       }
       else if( f.started || f.closed != -1 ) {
          viol( "C08", "C08|hook-on-disabled-control|" + t, "hooks were called for " + std::string( f.name ) + " whose control is disabled" );
+      }
+      // ---- C13: state scope discipline of the invocation that carries a state
+      if( f.expect_cs && !R.cfg->plain ) {
+         if( f.ncs != f.expect_cs ) viol( "C13", "C13|state-not-created", std::to_string( f.ncs ) + " state objects were created for " + std::string( f.name ) + ", expected " + std::to_string( f.expect_cs ) );
+         for( int i = 0; i < f.ncs && i < 2; ++i ) {
+            const frame::carried& c = f.cs[ i ];
+            const bool expect_success = ( result == 1 ) && ( c.rule_based || ( f.flags & F_ACT ) );
+            const std::string cls = c.rule_based ? "state-rule" : ( f.kind == ref::A_CHANGE_STATE ? "change_state" : f.kind == ref::A_CHANGE_STATES ? "change_states" : "change_action_and_state" );
+            if( !c.dtor ) viol( "C13", "C13|state-outlives-rule|" + cls, "the state of " + std::string( f.name ) + " was not destroyed before the rule's invocation ended" );
+            if( expect_success && c.successes != 1 ) viol( "C13", "C13|success-not-delivered-once|" + cls, "success() delivered " + std::to_string( c.successes ) + " times for a matching " + std::string( f.name ) );
+            if( !expect_success && c.successes != 0 ) viol( "C13", std::string( "C13|success-delivered-without-match|" ) + cls + ( result == 1 ? "|actions-disabled" : result == 0 ? "|local-failure" : "|exception" ), "success() delivered for " + std::string( f.name ) + " although the attempt did not match with actions enabled" );
+            if( c.successes == 1 && result == 1 ) {
+               if( c.success_cursor != b.p ) viol( "C13", "C13|success-cursor|" + cls, "success() of " + std::string( f.name ) + " saw the cursor at " + std::to_string( c.success_cursor - R.base ) + " but the match ended at " + std::to_string( b.p - R.base ) );
+               if( !( !c.rule_based && f.kind == ref::A_CHANGE_STATES ) && c.success_outer != c.outer_expected ) viol( "C13", "C13|success-outer-state|" + cls, "success() of " + std::string( f.name ) + " received outer state #" + std::to_string( c.success_outer ) + ", expected #" + std::to_string( c.outer_expected ) );
+            }
+         }
       }
       // ---- transactional logs
       if( result != 1 ) {
@@ -248,7 +296,7 @@ namespace mon
       const bool moved_inside = ( R.bumps != f.bumps );
       const char* m = ( f.flags & F_REQUIRED ) ? "required" : "optional";
       const char* a = ( f.flags & F_ACT ) ? "action" : "nothing";
-      const bool has_action = kind_of_vid( f.vid ) != 0 && ( f.flags & F_ACT );
+      const bool has_action = f.kind >= ref::A_APPLY && f.kind <= ref::A_THROW_ALIEN && ( f.flags & F_ACT );
       if( result == 0 ) {
          cell( std::string( "inv:" ) + t + ":" + m + ":fail" + ( moved_inside ? ":moved-inside" : "" ) + ( has_action ? ":with-action" : "" ) );
          if( ( f.flags & F_REQUIRED ) && moved ) {
@@ -375,6 +423,9 @@ namespace mon
             if( R.frames[ i ].flags & F_ENABLE_RULE ) break;
             if( R.frames[ i ].flags & ( F_LOOKAHEAD | F_DISABLE_RULE ) ) { viol( "C04", "C04|action-inside-lookahead-or-disable|" + tmpl( R.frames[ i ].rtname ), "action of " + std::string( vname( vid ) ) + " invoked inside " + std::string( R.frames[ i ].name ) ); break; }
          }
+         const int live = R.live_states.empty() ? 0 : R.live_states.back();
+         if( state_serial != live ) viol( "C13", "C13|action-received-wrong-state", "action of " + std::string( vname( vid ) ) + " received state #" + std::to_string( state_serial ) + " but the innermost live state is #" + std::to_string( live ) );
+         if( ( ( f.flags & F_AFAM_B ) != 0 ) != ( fam != 0 ) ) viol( "C13", "C13|action-family-mismatch", "action of " + std::string( vname( vid ) ) + " comes from family " + std::to_string( fam ) + " but its invocation runs with the other action family" );
          const char* cursor = R.hook_cursor;
          if( has_input ) {
             if( b != f.a.p ) viol( "C04", "C04|span-begin|" + t, "action input of " + std::string( vname( vid ) ) + " begins at offset " + std::to_string( b - R.base ) + " but the match started at " + std::to_string( f.a.p - R.base ) );
@@ -438,7 +489,42 @@ namespace mon
    void on_state( int what, int type, int serial, const char* cursor, int outer_serial ) noexcept
    {
       cell( what == 0 ? "state:ctor" : what == 1 ? "state:success" : "state:dtor" );
-      R.slog.push_back( { what, type, serial, cursor ? std::size_t( cursor - R.base ) : 0, outer_serial, R.frames.size() } );
+      if( R.fuel_out ) return;
+      if( R.frames.empty() ) { viol( "C13", "C13|state-event-outside-invocation", "state event outside any invocation" ); return; }
+      frame& f = R.frames.back();
+      const std::string t = tmpl( f.rtname );
+      if( what == 0 ) {
+         if( f.ncs >= f.expect_cs ) { viol( "C13", "C13|unexpected-state-object|" + t, "state st<" + std::to_string( type ) + "> created while the innermost running invocation is " + std::string( f.name ) + " which carries " + std::to_string( f.expect_cs ) + " state(s)" ); R.live_states.push_back( serial ); return; }
+         frame::carried& c = f.cs[ f.ncs ];
+         c.rule_based = ( f.ncs == f.expect_cs - 1 ) && f.rule_state;   // the action-based state (if any) comes first
+         ++f.ncs;
+         c.serial = serial;
+         c.outer_expected = R.live_states.empty() ? 0 : R.live_states.back();
+         if( f.kids != 0 ) viol( "C13", "C13|state-created-after-nested-rules|" + t, "state created after nested invocations of " + std::string( f.name ) + " began" );
+         if( cursor && cursor != f.a.p ) viol( "C13", "C13|state-ctor-cursor|" + t, "state constructor saw the cursor at " + std::to_string( cursor - R.base ) + " but the rule started at " + std::to_string( f.a.p - R.base ) );
+         if( outer_serial != -2 && outer_serial != c.outer_expected ) viol( "C13", "C13|state-ctor-outer-state|" + t, "state constructor received outer state #" + std::to_string( outer_serial ) + ", expected #" + std::to_string( c.outer_expected ) );
+         R.live_states.push_back( serial );
+         R.scopes.push_back( { type, serial, std::size_t( f.a.p - R.base ), std::size_t( -1 ), c.outer_expected, false } );
+         return;
+      }
+      frame::carried* c = nullptr;
+      for( int i = 0; i < f.ncs && i < 2; ++i )
+         if( f.cs[ i ].serial == serial ) c = &f.cs[ i ];
+      if( what == 1 ) {
+         if( !c ) { viol( "C13", "C13|success-for-foreign-state|" + t, "success() of state #" + std::to_string( serial ) + " while the innermost running invocation is " + std::string( f.name ) ); return; }
+         if( f.kids_open() ) viol( "C13", "C13|success-before-nested-rules-closed|" + t, "success() while nested invocations are open" );
+         ++c->successes;
+         c->success_cursor = cursor;
+         c->success_outer = outer_serial;
+         for( std::size_t i = R.scopes.size(); i-- > 0; )
+            if( R.scopes[ i ].serial == serial ) { R.scopes[ i ].e = cursor ? std::size_t( cursor - R.base ) : 0; R.scopes[ i ].succeeded = true; break; }
+      }
+      else {
+         if( !c ) viol( "C13", "C13|state-destroyed-outside-its-rule|" + t, "state #" + std::to_string( serial ) + " destroyed while the innermost running invocation is " + std::string( f.name ) );
+         else c->dtor = true;
+         if( R.live_states.empty() || R.live_states.back() != serial ) viol( "C13", "C13|state-destruction-order", "state #" + std::to_string( serial ) + " destroyed while it is not the innermost live state" );
+         else R.live_states.pop_back();
+      }
    }
 
    namespace
@@ -681,7 +767,9 @@ namespace mon
          ref::interp I;
          I.n = g.nodes;
          std::vector< int > ak;
-         if( g.akinds ) { ak.assign( g_names.size(), 0 ); for( std::size_t i = 0; i < ak.size(); ++i ) ak[ i ] = g.akinds[ i ]; I.akinds = ak.data(); }
+         std::vector< int > akb;
+         if( g.akinds && !cfg.plain ) { ak.assign( g_names.size(), 0 ); for( std::size_t i = 0; i < ak.size(); ++i ) ak[ i ] = g.akinds[ i ]; I.akinds = ak.data(); }
+         if( g.akinds_b && !cfg.plain ) { akb.assign( g_names.size(), 0 ); for( std::size_t i = 0; i < akb.size(); ++i ) akb[ i ] = g.akinds_b[ i ]; I.akinds_b = akb.data(); }
          I.salt = g.salt;
          I.eolpol = cfg.eolpol;
          I.in = input;
@@ -799,6 +887,7 @@ namespace mon
             for( std::size_t i = 0; same && i < ex.size(); ++i ) {
                const int xvid = ex[ i ]->type == ref::E_ACT ? ex[ i ]->vid : -1000 - ex[ i ]->vid;
                same = ( xvid == R.alog[ i ].vid ) && ( ex[ i ]->b == R.alog[ i ].b ) && ( ex[ i ]->e == R.alog[ i ].e || ( !R.alog[ i ].has_input && ex[ i ]->type == ref::E_CLSACT ) );
+               if( same && ex[ i ]->type == ref::E_ACT && ex[ i ]->fam != R.alog[ i ].fam ) viol( "C13", "C13|surviving-action-family|" + topt, "action of " + std::string( vname( xvid ) ) + " [" + std::to_string( ex[ i ]->b ) + "," + std::to_string( ex[ i ]->e ) + ") fired from action family " + std::to_string( R.alog[ i ].fam ) + ", the reference expects family " + std::to_string( ex[ i ]->fam ) );
             }
             cell( "actionlog:events", long( ex.size() ) );
             if( !same ) {
@@ -810,6 +899,25 @@ namespace mon
                for( const auto* e : ex ) { if( n++ > 12 ) { want += " ..."; break; } want += " " + ( e->type == ref::E_ACT ? tmpl( vname( e->vid ) ) : "cls" + std::to_string( e->vid ) ) + "[" + std::to_string( e->b ) + "," + std::to_string( e->e ) + ")"; }
                viol( "C04", "C04|surviving-action-log|" + topt, "surviving action invocations:" + got + " ; reference derivation:" + want );
             }
+         }
+         // ---- C13: surviving state scopes == reference scopes
+         if( result_ok && rs.st == 1 ) {
+            std::vector< const ref::event* > ex;
+            for( const auto& e : I.evs )
+               if( e.type == ref::E_SCOPE ) ex.push_back( &e );
+            bool same = ex.size() == R.scopes.size();
+            for( std::size_t i = 0; same && i < ex.size(); ++i ) {
+               const bool delivered = !ex[ i ]->vetoed;
+               same = ( ex[ i ]->vid == R.scopes[ i ].type ) && ( ex[ i ]->b == R.scopes[ i ].b ) && ( delivered == R.scopes[ i ].succeeded ) && ( !delivered || ex[ i ]->e == R.scopes[ i ].e );
+            }
+            cell( "scopes:surviving", long( ex.size() ) );
+            if( !same ) {
+               std::string got, want;
+               for( const auto& sc : R.scopes ) got += " st" + std::to_string( sc.type ) + "[" + std::to_string( sc.b ) + "," + ( sc.succeeded ? std::to_string( sc.e ) : std::string( "no-success" ) ) + ")";
+               for( const auto* e : ex ) want += " st" + std::to_string( e->vid ) + "[" + std::to_string( e->b ) + "," + ( !e->vetoed ? std::to_string( e->e ) : std::string( "no-success" ) ) + ")";
+               viol( "C13", "C13|surviving-scopes|" + topt, "state scopes of the surviving derivation:" + got + " ; reference:" + want );
+            }
+            if( !R.live_states.empty() ) viol( "C13", "C13|states-alive-after-run", "state objects still alive after the run" );
          }
          // ---- C12: parse tree == surviving derivation of the selected rules
          if( cfg.tree ) compare_tree( g, cfg, input, I, ro, rs, result_ok, topt );
